@@ -190,3 +190,39 @@ fn c10_run_without_rules() {
     assert!(it1 == it0 && count == 2, "a round that derived nothing changed the iteration count or the facts");
     assert!(count as u64 <= mf, "the run succeeds with more facts than the fact budget");
 }
+
+/// C05 / C11: accumulation of one round's results is the per-origin union, whatever else the
+/// store already holds: a fact derived under two different origin sets is kept under both, and a
+/// fact already known under another origin does not absorb it (so the result cannot depend on
+/// the order in which the derived facts are visited).
+fn int_fact(name: u64, v: i64) -> Fact {
+    Fact { predicate: Predicate { name, terms: vec![Term::Integer(v)] } }
+}
+fn origin2(a: usize, b: usize) -> Origin {
+    let mut o = Origin::default();
+    o.insert(a);
+    o.insert(b);
+    o
+}
+#[kani::proof]
+#[kani::unwind(6)]
+fn c05_factset_merge_is_union() {
+    let v: i64 = kani::any();
+    let (o1, o2, o3) = (origin2(0, 0), origin2(0, 1), origin2(0, 2));
+    let mut store = FactSet::default();
+    store.insert(&o1, int_fact(1, v));
+    let mut derived = FactSet::default();
+    derived.insert(&o2, int_fact(1, v));
+    derived.insert(&o3, int_fact(1, v));
+    derived.insert(&o3, int_fact(2, v));
+    store.merge(derived);
+    let n = store.len();
+    let mut under = [0u8; 3];
+    for (o, set) in store.inner.iter() {
+        let k = if *o == o1 { 0 } else if *o == o2 { 1 } else { 2 };
+        under[k] += set.len() as u8;
+    }
+    std::mem::forget(store);
+    kani::cover!(n == 4, "witness: all four (origin, fact) pairs are present");
+    assert!(n == 4 && under[0] == 1 && under[1] == 1 && under[2] == 2, "merging derived facts loses or moves a (fact, origin) pair");
+}
